@@ -102,10 +102,20 @@ def model_hook(ctx, part_kind, spec_part, pyc_obj, impl_bytes, wire=None, key=No
     wire       : conway.WireChoices used for the reference bytes (JSON image: wire.to_json()); key: output key"""
     if not model_available(ctx):
         return
-    # The Lean side plugs in here (`spec.enc` on conway.to_json(spec_part) + wire.to_json(), or `codec.enc` on the Val image
-    # of pyc_obj): compare the model bytes with impl_bytes, `ctx.traces += 1` per comparison, `ctx.diff(op, case, model,
-    # impl_bytes.hex())` on disagreement with case = part_case(part_kind, spec_part, wire, key).
-    return
+    # `codec.enc` of the Lean generic codec model (run on the schema regenerated from /repo) on the value image of the
+    # pycardano object must give the implementation's bytes: this is what ties `Pyc.C02.repo_refines` (a statement
+    # about the table) to the bytes the code emits
+    from vlib import typegen as T
+    try:
+        v = T.to_val(pyc_obj)
+    except Exception as e:  # noqa: BLE001   objects outside the value image (typed PlutusData, ...)
+        ctx.count("model:no-image:" + type(e).__name__)
+        return
+    k, m = ctx.driver().call({"op": "codec.enc", "v": v})
+    ctx.traces += 1
+    ctx.count("model:codec.enc:" + part_kind)
+    if k != "ok" or m != impl_bytes.hex():
+        ctx.diff("codec.enc", part_case(part_kind, spec_part, wire, key), m, impl_bytes.hex())
 
 
 # ---- one part --------------------------------------------------------------------------------------------------------------
